@@ -252,22 +252,25 @@ pub fn hashes(thorough: bool) -> Vec<[u8; 20]> {
 /// Re-announces of a running session (full-session world): a seeder delivers `deliver` pieces, then
 /// the other connection ends and the client, out of candidates, announces again. That request must
 /// name the bytes still left to download at that moment (and everything else as the first one).
-pub fn reannounce_case(dir: &std::path::PathBuf, deliver: usize, verbose: bool) -> (u64, Option<(&'static str, String)>) {
+pub fn reannounce_case(dir: &std::path::PathBuf, mask: u8, verbose: bool) -> (u64, Option<(&'static str, String)>) {
     use crate::fixture::Torrent;
     use crate::fullworld::{FEv, FullWorld, TrackerOutcome};
     use crate::refwire::{self, Msg};
     use crate::world::peer_cfg;
+    // pieces of 5, 5 and 3 bytes; the seeder owns (and delivers) the pieces of `mask`
     let t = Torrent::new("t", 5, &[("f", 13)], true);
     let cfgs = vec![peer_cfg(0, true), peer_cfg(1, true)];
     let mut w = FullWorld::new(&t, &cfgs, vec![TrackerOutcome::Good(vec![0, 1])], TrackerOutcome::Good(vec![]), dir);
     let mut steps = 3u64;
     let (idp, idq) = (w.peers[0].cfg.id, w.peers[1].cfg.id);
-    w.step(&FEv::Feed(0, [refwire::encode(&refwire::handshake(t.meta.info_hash(), &idp)), refwire::encode(&Msg::Bitfield(vec![0xe0])), refwire::encode(&Msg::Unchoke)].concat()));
+    let bits: Vec<bool> = (0..3).map(|i| mask >> i & 1 == 1).collect();
+    let deliver = bits.iter().filter(|b| **b).count();
+    w.step(&FEv::Feed(0, [refwire::encode(&refwire::handshake(t.meta.info_hash(), &idp)), refwire::encode(&Msg::Bitfield(refwire::bitfield_bytes(&bits))), refwire::encode(&Msg::Unchoke)].concat()));
     w.step(&FEv::Feed(1, refwire::encode(&refwire::handshake(t.meta.info_hash(), &idq))));
-    let owned_bytes = |w: &FullWorld| -> u64 { w.snap().map(|s| s.statuses.iter().enumerate().filter(|(_, x)| **x == rdest::verif::Status::Have).map(|(i, _)| t.pieces[i].len() as u64).sum()).unwrap_or(0) };
+    let owned = |w: &FullWorld| -> Vec<usize> { w.snap().map(|s| s.statuses.iter().enumerate().filter(|(_, x)| **x == rdest::verif::Status::Have).map(|(i, _)| i).collect()).unwrap_or_default() };
     let mut answered = 0usize;
     for _ in 0..8 {
-        if (owned_bytes(&w) > 0) as usize + (owned_bytes(&w) > 5) as usize + (owned_bytes(&w) > 10) as usize >= deliver.max(0) && deliver as u64 <= w.snap().map(|s| s.statuses.iter().filter(|x| **x == rdest::verif::Status::Have).count() as u64).unwrap_or(0) {
+        if owned(&w).len() >= deliver {
             break;
         }
         let reqs: Vec<(u32, u32, u32)> = w.peers[0].conn.as_ref().map(|c| c.msgs.iter().filter_map(|m| if let Msg::Request(i, b, l) = m { Some((*i, *b, *l)) } else { None }).collect()).unwrap_or_default();
@@ -279,21 +282,17 @@ pub fn reannounce_case(dir: &std::path::PathBuf, deliver: usize, verbose: bool) 
         w.step(&FEv::Feed(0, refwire::encode(&Msg::Piece(i, b, t.pieces[i as usize][b as usize..(b + l) as usize].to_vec()))));
         steps += 1;
     }
-    let have_n = w.snap().map(|s| s.statuses.iter().filter(|x| **x == rdest::verif::Status::Have).count()).unwrap_or(0);
-    if have_n != deliver {
-        return (steps, Some(("MACHINERY", format!("wanted {} pieces owned before the re-announce, got {}: {}", deliver, have_n, w.session_key()))));
+    let have = owned(&w);
+    if have != (0..3).filter(|i| bits[*i]).collect::<Vec<_>>() {
+        return (steps, Some(("MACHINERY", format!("wanted pieces {:?} owned before the re-announce, got {:?}: {}", bits, have, w.session_key()))));
     }
-    let left_before = 13 - owned_bytes(&w);
+    let left_before: u64 = 13 - have.iter().map(|i| t.pieces[*i].len() as u64).sum::<u64>();
     let n_before = w.announces.borrow().len();
     w.step(&FEv::Close(1));
     steps += 1;
     let reqs = w.announces.borrow().clone();
     if verbose {
-        println!("pieces owned {} (left {} bytes); announces: {:#?}", deliver, left_before, reqs);
-    }
-    if deliver == 3 {
-        // nothing is missing: no re-announce is owed
-        return (steps, None);
+        println!("pieces owned {:?} (left {} bytes); announces: {:#?}", have, left_before, reqs);
     }
     if reqs.len() != n_before + 1 {
         return (steps, Some(("MACHINERY", format!("expected one re-announce after the other connection ended, saw {} (before: {})", reqs.len(), n_before))));
@@ -301,7 +300,7 @@ pub fn reannounce_case(dir: &std::path::PathBuf, deliver: usize, verbose: bool) 
     let (_, pairs) = split_url(&reqs[reqs.len() - 1]);
     let left: Vec<&Vec<u8>> = pairs.iter().filter(|(k, _)| k == b"left").map(|(_, v)| v).collect();
     if left.len() != 1 || left[0].as_slice() != left_before.to_string().as_bytes() {
-        return (steps, Some(("left-parameter-wrong", format!("re-announce of a session that owns {} of 3 pieces ({} of 13 bytes still to download) says left={:?}: {}", deliver, left_before, left.iter().map(|v| core::show(v)).collect::<Vec<_>>(), reqs[reqs.len() - 1]))));
+        return (steps, Some(("left-parameter-wrong", format!("re-announce of a session that owns pieces {:?} of 3 (sizes 5, 5, 3; {} of 13 bytes still to download) says left={:?}: {}", have, left_before, left.iter().map(|v| core::show(v)).collect::<Vec<_>>(), reqs[reqs.len() - 1]))));
     }
     let hashes: Vec<&Vec<u8>> = pairs.iter().filter(|(k, _)| k == b"info_hash").map(|(_, v)| v).collect();
     if hashes.len() != 1 || hashes[0].as_slice() != &t.meta.info_hash()[..] {
@@ -386,23 +385,23 @@ pub fn run(ctx: &Ctx) -> Outcome {
     {
         let dir = core::private_cwd("c18", "re");
         core::set_quiet_panics(true);
-        for deliver in 0..=2usize {
-            let (n, v) = reannounce_case(&dir, deliver, false);
-            re_rows.push(json!({"pieces_owned_at_re_announce": deliver, "events": n, "ok": v.is_none()}));
+        for mask in 0..7u8 {
+            let (n, v) = reannounce_case(&dir, mask, false);
+            re_rows.push(json!({"pieces_owned_at_re_announce_mask": mask, "events": n, "ok": v.is_none()}));
             if let Some((class, why)) = v {
                 if class == "MACHINERY" {
                     ctx.machinery_error(why);
                 } else {
-                    ctx.violation(class, why, json!({"kind": "reannounce", "deliver": deliver}));
+                    ctx.violation(class, why, json!({"kind": "reannounce", "mask": mask}));
                 }
             }
         }
     }
     let mut o = Outcome::new("exploration");
     o.set("re_announce_cases", Value::Array(re_rows));
-    o.set("evaluations", json!(cases.len() + 3));
+    o.set("evaluations", json!(cases.len() + 7));
     o.set("distinct_nontrivial", json!(distinct.len()));
-    o.set("rule", json!("info-hash = a fixed 20-byte pattern with every byte value 0..=255 substituted at the listed positions, plus all-equal hashes; x 15 announce URLs (plain, port+path, with one / two query parameters, trailing ?, upper-case scheme, mixed-case https host with port and query, IPv6 literal, IPv4 literal with port, non-ASCII characters in the path before a query, non-ASCII in path and in a parameter value, a #fragment behind the path and behind a query, tracker parameters whose names contain (transport, days_left, super_peer_id, xinfo_hash) or equal (numwant, event, uploaded) names of the client's own parameters; bases compared after percent-decoding, fragments dropped) x 5 alphanumeric peer ids x total lengths {0, 1, 2^40, 2^31-1, 2^32, 2^53+1, 2^63-1, 2^63, 2^63+1, 2^64-1, 2^40+1}, the last four as multi-file torrents (quick: ids/lengths only vary for the first URL). Plus retries: every word of <= 2 (thorough 3) failed announces (refused / HTTP 500 / garbage / failure reason) before the good reply for every URL, id and length, and one failure for every hash; EVERY request of a case is judged, not only the first. Each case runs the real TrackerClient::run over the HTTP seam (paused clock, so the 1 s retry delay is virtual); distinct_nontrivial = number of distinct request URLs captured. Plus re-announces of a running session (full-session world, 3 pieces of 5+5+3 bytes): after 0, 1, 2 pieces were delivered the other connection ends, the client is out of candidates and announces again; that request must carry left = bytes of the pieces still missing, the info-hash, peer id and port."));
+    o.set("rule", json!("info-hash = a fixed 20-byte pattern with every byte value 0..=255 substituted at the listed positions, plus all-equal hashes; x 15 announce URLs (plain, port+path, with one / two query parameters, trailing ?, upper-case scheme, mixed-case https host with port and query, IPv6 literal, IPv4 literal with port, non-ASCII characters in the path before a query, non-ASCII in path and in a parameter value, a #fragment behind the path and behind a query, tracker parameters whose names contain (transport, days_left, super_peer_id, xinfo_hash) or equal (numwant, event, uploaded) names of the client's own parameters; bases compared after percent-decoding, fragments dropped) x 5 alphanumeric peer ids x total lengths {0, 1, 2^40, 2^31-1, 2^32, 2^53+1, 2^63-1, 2^63, 2^63+1, 2^64-1, 2^40+1}, the last four as multi-file torrents (quick: ids/lengths only vary for the first URL). Plus retries: every word of <= 2 (thorough 3) failed announces (refused / HTTP 500 / garbage / failure reason) before the good reply for every URL, id and length, and one failure for every hash; EVERY request of a case is judged, not only the first. Each case runs the real TrackerClient::run over the HTTP seam (paused clock, so the 1 s retry delay is virtual); distinct_nontrivial = number of distinct request URLs captured. Plus re-announces of a running session (full-session world, 3 pieces of 5+5+3 bytes): for every proper subset of the pieces (owned by the seeder and delivered) the other connection then ends, the client is out of candidates and announces again; that request must carry left = bytes of the pieces still missing, the info-hash, peer id and port."));
     o.set("hashes", json!(hs.len()));
     let picks = ctx.seeded_pick(cases.len(), 4);
     o.set("samples", Value::Array(picks.iter().map(|i| json!({"announce": URLS[cases[*i].url], "hash": core::hex(&cases[*i].hash), "request": res[*i].0})).collect()));
@@ -415,7 +414,7 @@ pub fn run(ctx: &Ctx) -> Outcome {
 pub fn replay(_ctx: &Ctx, r: &Value) -> i32 {
     if r["kind"] == "reannounce" {
         let dir = core::private_cwd("c18", "replay");
-        return match reannounce_case(&dir, r["deliver"].as_u64().unwrap() as usize, true).1 {
+        return match reannounce_case(&dir, r["mask"].as_u64().unwrap() as u8, true).1 {
             Some((class, s)) => {
                 println!("VIOLATION property=C18 replay=<this file>\n  class={} {}", class, s);
                 1
